@@ -1,7 +1,8 @@
 from contracts.alignment import CONTRACTS as _C
+from contracts.repaired import ClearArrays
 from contracts.values import FormatValuesLength, PaddingRoundTrip
 from contracts.geometry import CURVE_RESETS
-CONTRACTS = list(_C) + [FormatValuesLength, PaddingRoundTrip] + list(CURVE_RESETS)
+CONTRACTS = list(_C) + [FormatValuesLength, PaddingRoundTrip] + list(CURVE_RESETS) + [ClearArrays]
 
 MANIFEST = {
     "category": "proof",
